@@ -74,6 +74,32 @@ fn install_site(injector: &mut InjectorPP, n: usize) {
     }
 }
 
+#[inline(never)]
+fn tt_plain_fake(_x: u32) -> u32 {
+    std::hint::black_box(0xFB)
+}
+
+/// Post-mortem (C05): a *fresh thread* must be able to create an injector, use it and let it go.
+fn fresh_thread_can_use_injector() -> Result<(), String> {
+    let (tx, rx) = std::sync::mpsc::channel();
+    std::thread::spawn(move || {
+        let r = catch_unwind(|| {
+            let mut injector = InjectorPP::new();
+            injector.when_called(inj::func!(fn(tt)(u32) -> u32)).will_execute_raw(inj::func!(fn(tt_plain_fake)(u32) -> u32));
+            let during = tt(1);
+            drop(injector);
+            (during, tt(1))
+        });
+        let _ = tx.send(r.map_err(|p| payload_text(p.as_ref())));
+    });
+    match rx.recv_timeout(std::time::Duration::from_secs(10)) {
+        Ok(Ok((0xFB, 11))) => Ok(()),
+        Ok(Ok((a, b))) => Err(format!("a fresh thread's injector saw {a:#x} while installed and {b} afterwards (expected 0xfb and 11)")),
+        Ok(Err(m)) => Err(format!("a fresh thread could not use a new injector: {m}")),
+        Err(_) => Err("a fresh thread did not obtain a new injector within 10 s (the process-wide guard was not released)".into()),
+    }
+}
+
 #[derive(Clone, Default, PartialEq, Eq, Hash, Debug)]
 pub struct Model {
     pub alive: bool,
@@ -152,6 +178,8 @@ fn numbers_in(s: &str) -> Vec<u64> {
 }
 
 /// Execute one history for the source line with budget `n`.
+pub static POSTMORTEM: std::sync::atomic::AtomicBool = std::sync::atomic::AtomicBool::new(false);
+
 pub fn run_history(n: usize, hist: &[Op], threads: bool) -> Res {
     if threads {
         let h = hist.to_vec();
@@ -333,6 +361,12 @@ fn run_history_inner(n: usize, hist: &[Op]) -> Res {
                 res.violations.push(Violation { prop: "C12", key: "mapping-leaked".into(), step: idx, what: format!("{} trampoline mapping(s) still owned after the lifetime ended", owned.len()) });
             }
         }
+    }
+    if !POSTMORTEM.load(std::sync::atomic::Ordering::Relaxed) {
+        return res;
+    }
+    if let Err(m) = fresh_thread_can_use_injector() {
+        res.violations.push(Violation { prop: "C05", key: "fresh-thread-cannot-use-injector".into(), step: idx, what: m });
     }
     res
 }
